@@ -4,6 +4,9 @@ use crate::engine::PropSpec;
 pub mod c01;
 pub mod c02;
 pub mod c03;
+pub mod c06;
+pub mod c07;
+pub mod c09;
 pub mod c11;
 pub mod c12;
 pub mod c13;
@@ -13,6 +16,9 @@ pub fn spec(id: &str) -> Option<PropSpec> {
         "C01" => Some(c01::spec()),
         "C02" => Some(c02::spec()),
         "C03" => Some(c03::spec()),
+        "C06" => Some(c06::spec()),
+        "C07" => Some(c07::spec()),
+        "C09" => Some(c09::spec()),
         "C11" => Some(c11::spec()),
         "C12" => Some(c12::spec()),
         "C13" => Some(c13::spec()),
